@@ -234,8 +234,17 @@ def generate(tier, rng, around=None):
             lim = {'quick': 260, 'thorough': 4000, 'widen': 1200}[tier]
             for c in (combos if len(combos) <= lim else rng.sample(combos, lim)):
                 cases.append(dict(extra, prog=prog, events=life.place(n, c) + tail, _prog=name))
-    return {'cases': cases, 'exhaustive': True,
-            'scope': '7 programs x 5 listener variants x every single request/cancel at every boundary; all sequences of 2-3 requests containing a kill (sampled)'}
+    # the schedules without a listener, once more with a listener that reacts to some notification with a control call of its own
+    # (play / pause / kill / fail, made re-entrantly from inside the transition or the pause that notifies it): sampled
+    pool = [c for c in cases if not c.get('listeners') and '_corpus' not in c]
+    kl = {'quick': 200, 'thorough': 5000, 'widen': 500}[tier]
+    for c in (pool if len(pool) <= kl else rng.sample(pool, kl)):
+        l = rng.choice(['on_process_running', 'on_process_waiting', 'on_process_paused', 'on_process_played', 'on_process_killed'])
+        rc = rng.choice([['play'], ['pause', None], ['kill', 'lk'], ['fail', 'lf']])
+        cases.append(dict(c, listeners=[[l, rng.choice([0, 1]), rc]]))
+    return {'cases': cases, 'exhaustive': False,
+            'scope': '7 programs x 5 listener variants x every single request/cancel at every boundary; all sequences of 2-3 requests containing a kill (sampled); '
+                     'sampled: listeners reacting to any notification with play / pause / kill / fail'}
 
 
 def shrink_candidates(case):
